@@ -255,8 +255,12 @@ def parseItems : List PeerItem → Except Err (List Int)
     let as ← parseItems ps
     pure (a :: as)
 
-/-- `str.split(',')` -/
-def splitComma (s : String) : List String := s.splitOn ","
+def splitCommaL : List Char → List Char → List (List Char)
+  | acc, [] => [acc.reverse]
+  | acc, c :: l => if c == ',' then acc.reverse :: splitCommaL [] l else splitCommaL (c :: acc) l
+
+/-- `str.split(',')` (structural, so that concrete histories reduce in the kernel) -/
+def splitComma (s : String) : List String := (splitCommaL [] s.toList).map String.ofList
 
 def parsePeers : PeerVal → Except Err (List Int)
   | .str v => parseItems ((splitComma v).map PeerItem.s)
